@@ -24,6 +24,10 @@ Readings adopted where the statement leaves room
   * a body whose Content-Encoding does not decode is "malformed" (400).
   * "decodable Arrow IPC body": one or more back-to-back IPC streams, every batch readable and valid, nothing left over,
     labelled application/vnd.apache.arrow.stream.
+  * an unsupported Content-Encoding (unknown token, or a known coding the server has disabled) is answered 415 whatever the
+    body is, the empty body included: the body cannot be interpreted, so no body- or method-dependent verdict (400, 404, 200)
+    may take its place; only the size cap (413) and authentication (401), which do not look at the body, may come first.
+    Beyond the grid, every body class is crossed with eight unsupported tokens and with zstd on a zstd-disabled server.
   * Content-Encoding "identity" is not in the grid (its handling belongs to C17 and is changing).
 """
 from __future__ import annotations
@@ -119,6 +123,10 @@ def _oracle(ctx: Any, d: dict[str, str], o: dict[str, Any], replay: dict[str, An
     if st >= 500 or st not in ALLOWED:
         ctx.violation(_key_for(d, o, "5xx") if st >= 500 else f"status-{st}-outside-the-mapping", f"client-controlled request answered with HTTP {st}", replay)
         return
+    if d["cenc"] == "unknown" and st != 415 and not (st == 413 and 413 in defects) and not (st == 401 and 401 in defects):
+        # an unsupported (unknown or disabled) coding means the body cannot be interpreted at all: whatever the body is -- empty
+        # included -- the answer is 415 (only the size cap and authentication, which do not look at the body, may come first)
+        ctx.violation("unsupported-content-encoding-not-415", f"unsupported Content-Encoding answered {st} (body class {d['body']}, method {d['method']})", replay)
     if st not in (401, 415) and not (o["body"] in ("arrow_ok", "arrow_err") and o["ctype"] == "arrow"):
         ctx.violation(_key_for(d, o, "body"), f"HTTP {st} response is not a decodable Arrow IPC body (content type {o['ctype']}, body {o['body']})", replay)
     ran = [c for c in o["calls"] if not c.endswith("!")]
@@ -148,6 +156,34 @@ def _oracle(ctx: Any, d: dict[str, str], o: dict[str, Any], replay: dict[str, An
             ctx.violation(f"implementation-ran-on-{st}", f"refused with {st} but the implementation ran {o['calls']}", replay)
         if o["body"] == "arrow_ok":
             ctx.violation(f"refusal-{st}-without-error-batch", "refusal body carries no error batch", replay)
+
+
+def _coding_cross(ctx: Any, D: Any, world: Any) -> list[tuple[tuple[int, ...], int, dict[str, Any]]]:
+    """Every body class x every unsupported coding token (and zstd on a server where it is disabled), on every route and
+    method class, in every tier: the {bodies} x {unsupported encodings} cell of the quantifier, explicitly.
+    Returns (descriptor with cenc = unknown, observed code, replay) for the comparison with the model."""
+    out = []
+    unk = D.CENCS.index("unknown")
+    for route, method, body in itertools.product(range(len(D.ROUTES)), range(len(D.METHODS)), range(len(D.BODIES))):
+        d = (route, method, body, 0, unk, 0, 0, 0, 0)
+        dd = D.describe(d)
+        base = world.build((route, method, body, 0, 0, 0, 0, 0, 0), body % D.N_VARIANTS)
+        runs = [(tok, None, base["body"]) for tok in D.ALL_UNKNOWN_CENCS]
+        import zstandard
+
+        # known-but-disabled: zstd on the app built under VGI_HTTP_DISABLE_ZSTD=1 (a real zstd frame, or the raw/empty body)
+        runs.append(("zstd", world.zstd_disabled_client, zstandard.ZstdCompressor().compress(base["body"]) if base["body"] else b""))
+        runs.append(("zstd", world.zstd_disabled_client, base["body"]))
+        for tok, client, wire in runs:
+            req = dict(base, body=wire, headers={**base["headers"], "Content-Encoding": tok})
+            o = world.observe(req, client=client)
+            ctx.count("impl_runs")
+            ctx.count("coding_cross_runs")
+            replay = {"descriptor": dd, "content_encoding": tok, "zstd_disabled_server": client is not None, "path": req["path"], "headers": req["headers"],
+                      "body_hex": wire[:4096].hex(), "body_len": len(wire), "observed": {k: o[k] for k in ("status", "marker", "ctype", "body", "error", "calls")}}
+            _oracle(ctx, dd, o, replay)
+            out.append((d, _code(o), replay))
+    return out
 
 
 def _code(o: dict[str, Any]) -> int:
@@ -279,6 +315,7 @@ def run(ctx: Any) -> None:
                                      "observed": {k: o[k] for k in ("status", "marker", "ctype", "body", "error", "calls")}})
                 if _code(o) != observed[d]:
                     disagree.append((dd, variant_of[d], observed[d], v, _code(o)))
+        cross = _coding_cross(ctx, D, world)
         ctx.obligation("harness:variants-of-a-class-agree", "correspondence", not disagree, f"{len(disagree)} descriptors whose variants differ, e.g. {disagree[:2]}")
         ctx.log(f"real app: {ctx.counters.get('impl_runs', 0)} requests in {time.time() - t0:.1f}s")
     finally:
@@ -315,6 +352,11 @@ def run(ctx: Any) -> None:
             idx = sum(i * st for i, st in zip(d, strides))
             if table[idx] != code:
                 bad.append((d, code, table[idx]))
+        for d, code, replay in cross:
+            idx = sum(i * st for i, st in zip(d, strides))
+            if table[idx] != code:
+                bad.append((d, code, table[idx]))
+                variant_of.setdefault(d, -1)
         ctx.count("model_cases", len(observed))
         ctx.obligation(f"correspondence:M_HttpStatus.run_with {cfg}", "correspondence", not bad, f"{len(bad)} of {len(observed)} descriptors disagree")
         for d, code, mcode in bad[:5]:
